@@ -1254,6 +1254,14 @@ func (app *App) performSwitchover(clusterState map[string]*nodestate.NodeState, 
 
 	activeNodesWithOldMaster := activeNodes
 
+	// members of the published list that are not registered cluster hosts (any more) have no node
+	// and no state: they cannot be frozen, compared or re-pointed. They still count in
+	// activeNodesWithOldMaster, i.e. against the failover quorum.
+	if switchover.To != "" && clusterState[switchover.To] == nil {
+		return errors.New("switchover: failed: destination is not a registered cluster host")
+	}
+	activeNodes = util.FilterStrings(activeNodes, func(host string) bool { return clusterState[host] != nil })
+
 	// filter out old master as may hang and timeout in different ways
 	if switchover.Cause == CauseAuto && switchover.From == oldMaster {
 		activeNodes = filterOut(activeNodes, []string{oldMaster})
